@@ -60,6 +60,8 @@ def check_text_output(ctx, component, items):
     dec = tdecode_many([bytes.fromhex(h[1:] if h.startswith("x") else h) for _, _, h in items])
     n_ok = 0
     for (ln, exp, h), d in zip(items, dec):
+        if oracle_silent(ctx, component, ln, d):
+            continue
         if d is None:
             ctx.fail("property", component, ln, "text output is outside the Ion text grammar (independent decoder): %s" % h[:240])
         elif d != exp:
